@@ -255,7 +255,11 @@ impl Mesh {
 struct MeshNearCheck<'a> {
     this_mesh: &'a Mesh,
     ref_mesh: &'a Mesh,
-    checked: HashMap<u32, bool>,
+    /// The part of the check that depends only on the vertex: `None` if the vertex fails the
+    /// distance or planar check, `Some(None)` if it passes and no normal comparison is needed,
+    /// and `Some(Some(rn))` if it passes and the normal of the face being checked still has to
+    /// be compared against the reference normal `rn`.
+    checked: HashMap<u32, Option<Option<UnitVec3>>>,
     distance_tol: f64,
     planar_tol: Option<f64>,
     angle_tol: Option<f64>,
@@ -279,52 +283,57 @@ impl<'a> MeshNearCheck<'a> {
         }
     }
 
-    fn store_and_return(&mut self, vertex_index: u32, result: bool) -> bool {
+    /// The vertex-only part of the near check, remembered per vertex so that it is computed
+    /// once for all the faces that share the vertex.
+    fn vertex_check(&mut self, vertex_index: u32) -> Option<Option<UnitVec3>> {
+        if let Some(&checked) = self.checked.get(&vertex_index) {
+            return checked;
+        }
+
+        let p = self.this_mesh.vertices()[vertex_index as usize];
+
+        let result = if let Some((prj, ri, _loc)) =
+            self.ref_mesh.project_with_max_dist(&p, self.distance_tol)
+        {
+            if self.planar_tol.is_none() && self.angle_tol.is_none() {
+                Some(None)
+            } else if let Some(rn) = self.ref_mesh.shape.triangle(ri).normal() {
+                // We need to get the normal of the reference triangle
+                let rsp = SurfacePoint3::new(prj.point, rn);
+
+                let check_planar = if let Some(planar_tol) = self.planar_tol {
+                    rsp.planar_distance(&p) <= planar_tol
+                } else {
+                    true
+                };
+
+                if check_planar {
+                    Some(self.angle_tol.map(|_| rn))
+                } else {
+                    None
+                }
+            } else {
+                None
+            }
+        } else {
+            None
+        };
+
         self.checked.insert(vertex_index, result);
         result
     }
 
     fn near_check(&mut self, vertex_index: u32, face_normal: Option<UnitVec3>) -> bool {
-        if let Some(&checked) = self.checked.get(&vertex_index) {
-            checked
-        } else {
-            let p = self.this_mesh.vertices()[vertex_index as usize];
-
-            let is_ok = if let Some((prj, ri, _loc)) =
-                self.ref_mesh.project_with_max_dist(&p, self.distance_tol)
-            {
-                if self.planar_tol.is_none() && self.angle_tol.is_none() {
-                    true
-                } else if let Some(rn) = self.ref_mesh.shape.triangle(ri).normal() {
-                    // We need to get the normal of the reference triangle
-                    let rsp = SurfacePoint3::new(prj.point, rn);
-
-                    let check_planar = if let Some(planar_tol) = self.planar_tol {
-                        rsp.planar_distance(&p) <= planar_tol
-                    } else {
-                        true
-                    };
-
-                    let check_angle = if let Some(angle_tol) = self.angle_tol {
-                        if let Some(face_normal) = face_normal {
-                            face_normal.angle(&rn) <= angle_tol
-                        } else {
-                            // No face normal, so we can't check the angle, assume it's bad?
-                            false
-                        }
-                    } else {
-                        true
-                    };
-
-                    check_planar && check_angle
-                } else {
-                    false
-                }
-            } else {
-                false
-            };
-
-            self.store_and_return(vertex_index, is_ok)
+        match self.vertex_check(vertex_index) {
+            None => false,
+            Some(None) => true,
+            // The angle between the face and the reference depends on the face that is asking,
+            // so it is evaluated for every face rather than remembered with the vertex.
+            Some(Some(rn)) => match (face_normal, self.angle_tol) {
+                (Some(face_normal), Some(angle_tol)) => face_normal.angle(&rn) <= angle_tol,
+                // No face normal, so we can't check the angle, assume it's bad?
+                _ => false,
+            },
         }
     }
 }
